@@ -119,7 +119,8 @@ func VerifNewRemoteRuntime(opts *RuntimeOptions, cores, memGB int, templatePath,
 	if i := len(mode) - len(".template"); i > 0 {
 		mode = mode[:i]
 	}
-	rt.jobConfig.JobModes = map[string]*JobModeJson{mode: {Cmd: cmd, Args: args}}
+	rt.jobConfig.JobModes = map[string]*JobModeJson{mode: {Cmd: cmd, Args: args,
+		QueueQuery: VerifQueueQuery, QueueQueryGrace: VerifQueueGraceSecs}}
 	rjm, err := NewRemoteJobManager(templatePath, 0, maxJobs, 0, "", rt.jobConfig, false)
 	if err != nil {
 		return nil, err
@@ -127,6 +128,33 @@ func VerifNewRemoteRuntime(opts *RuntimeOptions, cores, memGB int, templatePath,
 	rt.JobManager = rjm
 	opts.JobMode = templatePath
 	return rt, nil
+}
+
+// VerifQueueQuery, if set, is the queue query command (a file in the
+// jobmanagers directory next to the executable's directory) of the job modes
+// VerifNewRemoteRuntime creates, with VerifQueueGraceSecs as its grace period.
+var (
+	VerifQueueQuery     string
+	VerifQueueGraceSecs int
+)
+
+// VerifAgeQueueCheck lets time pass for the queue check: the last query and
+// every job's "not in the queue since" mark become d older.
+func (self *Pipestance) VerifAgeQueueCheck(d time.Duration) {
+	self.queueCheckLock.Lock()
+	if !self.lastQueueCheck.IsZero() {
+		self.lastQueueCheck = self.lastQueueCheck.Add(-d)
+	}
+	self.queueCheckLock.Unlock()
+	for _, node := range self.allNodes() {
+		for _, md := range node.collectMetadatas() {
+			md.mutex.Lock()
+			if !md.notRunningSince.IsZero() {
+				md.notRunningSince = md.notRunningSince.Add(-d)
+			}
+			md.mutex.Unlock()
+		}
+	}
 }
 
 // VerifSemaphores exposes the local job manager's semaphores (cores, memory).
